@@ -1,4 +1,5 @@
 import TsVerif.C19.Lemmas
+import TsVerif.C19.Liveness
 import TsVerif.C19.Judge
 /-!
 # C19 — Grammar loading is safe under concurrency and after crashes
@@ -21,9 +22,15 @@ interleaving of the atomic steps, a crash possible before every step).
 | … within bounded time | `bounded_termination` + `wait_free` (unchanged tree: every caller finishes within `K + 7` own steps, whatever the others do); `no_orphan_lock`, `judge_orphan_of_model` (both variants: a caller that returns never leaves its lock behind, so later loads do not have to wait out the timeout unless somebody died) |
 | … and never load a stale or truncated library | `safety` + `no_partial` hold in every reachable state, crashes included |
 
-OPEN (false for the unchanged tree, see the refutations above; not yet proved for `Variant.recheck`,
-which needs a fairness hypothesis because a re-checking waiter loops):
-`recovery : Init s0 → Reach c s0 s → (later caller runs alone from s) → it ends in done (ok src)`.
+The recovery clause is **proved for the committed protocol** (`Variant.recheck`, the default since
+/repo 8957f32): `recheck_bounded` (every execution, crashes included, has at most `mu c s` steps —
+ranking function in Liveness.lean), `recovery_recheck` (in every reachable quiescent state every
+caller that did not die holds `ok src`), `completion_exists`, and `liveness_recheck` (every
+execution satisfying the fairness predicate `Progress` reaches quiescence).  No hypothesis about the
+lock holder's speed is needed: a waiter that gives up removes the lock and proceeds by itself, and
+each caller takes the lock at most once.  For the pre-fix protocol (`orig`) the clause is refuted
+(`stale_lock_never_recovers`, `crash_while_holding_is_permanent`).
+OPEN: `liveness_ok` for `orig` (no timeouts under holder progress) — moot since the fix.
 
 Boundary conventions: "current sources" = the version on disk, constant during a run;
 `needs_recompile`'s mtime comparison is abstracted to version inequality; time is abstract
@@ -95,7 +102,7 @@ example : Init (mkInit 2 (some ⟨1, true⟩) true 3) := mkInit_is_init _ _ _ _ 
 
 /-- Non-vacuity of `safety`: two callers, stale library; one compiles, the other waits; both end
 with the current version. -/
-example : (run { K := 3, mayFail := false } (mkInit 2 (some ⟨1, true⟩) false 2)
+example : (run { K := 3, mayFail := false, variant := .orig } (mkInit 2 (some ⟨1, true⟩) false 2)
     [(0, .check), (1, .check), (0, .tryLock), (1, .tryLock), (0, .compileBegin), (1, .poll), (0, .compileFinish),
      (0, .rename), (0, .unlock), (1, .poll), (1, .load), (0, .load)]).map (fun s => s.procs.map (·.pc))
     = some [.done (.ok 2), .done (.ok 2)] := by decide
@@ -225,7 +232,7 @@ theorem crash_while_holding_is_permanent (c : Cfg) (hv : c.variant = .orig) (hm 
 
 /-- Non-vacuity: such a crash is reachable (caller 0 dies while compiling), and afterwards caller 1
 and a later caller 2 both time out. -/
-example : (run { K := 1, mayFail := false } (mkInit 2 none false 3)
+example : (run { K := 1, mayFail := false, variant := .orig } (mkInit 2 none false 3)
     [(0, .check), (0, .tryLock), (0, .compileBegin), (0, .crash), (1, .check), (1, .tryLock), (1, .poll), (1, .poll),
      (2, .check), (2, .tryLock), (2, .poll), (2, .poll)]).map (fun s => s.procs.map (·.pc))
     = some [.dead, .done (.err .timeout), .done (.err .timeout)] := by decide
@@ -314,5 +321,198 @@ theorem judge_orphan_of_model (c : Cfg) {s0 s : State} (hi : Init s0) (hr : Reac
         rcases hpc with h | h
         · cases pc <;> simp [Pc.holder] at h <;> rfl
         · simp only at h; subst h; rfl
+
+
+/-! ## Recovery and liveness of the committed protocol (`Variant.recheck`) -/
+
+/-- `recheck_bounded`: in the committed protocol **every** execution — any interleaving, crashes
+anywhere, leftover lock or not, failing compiles or not — has at most `mu c s` steps: the ranking
+function `mu` (Liveness.lean) decreases on every step. -/
+theorem recheck_bounded (c : Cfg) (hv : c.variant = .recheck) (s t : State) (sched : List (Nat × Act))
+    (h : run c s sched = some t) : sched.length ≤ mu c s := by
+  have := run_mu hv sched s t h
+  omega
+
+theorem potSum_replicate (n : Nat) : potSum (List.replicate n ({ pc := .start, temp := none } : Proc)) = n := by
+  induction n with
+  | zero => simp [potSum]
+  | succ n ih =>
+    simp only [potSum, List.replicate_succ, List.map_cons, List.sum_cons] at ih ⊢
+    rw [ih]; simp [pot]; omega
+
+theorem rkSum_replicate (c : Cfg) (b : Bool) (n : Nat) :
+    rkSum c b (List.replicate n ({ pc := .start, temp := none } : Proc)) = n * (if b then c.K + 10 else 7) := by
+  induction n with
+  | zero => simp [rkSum]
+  | succ n ih =>
+    simp only [rkSum, List.replicate_succ, List.map_cons, List.sum_cons] at ih ⊢
+    rw [ih, Nat.succ_mul]; simp [rk]; omega
+
+/-- The bound for `n` callers starting together: `n·(K+10) + (K+3)·n(n+1)/2` with a leftover lock,
+`7n + (K+3)·n(n+1)/2` without. -/
+theorem mu_init (c : Cfg) (src : Nat) (lib : Option File) (lock : Bool) (n : Nat) :
+    mu c (mkInit src lib lock n) = n * (if lock then c.K + 10 else 7) + (c.K + 3) * tri n := by
+  unfold mu mkInit
+  simp only
+  rw [rkSum_replicate, potSum_replicate]
+  cases lock <;> simp
+
+/-- `recovery_recheck` (the property's "later loads still succeed … and never load a stale or
+truncated library", for the committed protocol with sources that compile): in every state that
+is reachable — through any interleaving, with any number of crashes at any points, from any of the
+initial cache states incl. a leftover lock — and in which nobody can move any more, **every caller
+that did not die itself has returned `ok` with the current version**; nobody timed out, nobody saw
+a missing or partial file. -/
+theorem recovery_recheck (c : Cfg) (hv : c.variant = .recheck) (hm : c.mayFail = false) {s0 s : State}
+    (hi : Init s0) (hr : Reach c s0 s) (hq : Quiescent c s) (p : Nat) (pr : Proc)
+    (hp : s.procs[p]? = some pr) : pr.pc = .dead ∨ pr.pc = .done (.ok s0.src) := by
+  have hfin := quiescent_finished hq p pr hp
+  have hsafe := safety c (Or.inr hv) hi hr p pr hp
+  have hnt : NoTimeout s := reach_noTimeout hv (by
+    intro q prq hq' hpc
+    have := hi.allStart q prq hq'
+    rw [this] at hpc; cases hpc) hr
+  obtain ⟨pc, temp⟩ := pr
+  cases pc <;> simp [Pc.finished] at hfin
+  case dead => exact Or.inl rfl
+  case done r =>
+    right
+    cases r with
+    | ok v => rw [(hsafe.1 v rfl).1]
+    | err e =>
+      rcases hsafe.2.2 e rfl with h | ⟨_, h⟩
+      · subst h; exact absurd rfl (hnt p _ hp)
+      · rw [hm] at h; cases h
+
+/-- The same with sources that may fail to compile: a live caller ends with the current version
+or with the compile error — never with a stale library, a timeout, a missing or a partial file. -/
+theorem recovery_recheck_failing (c : Cfg) (hv : c.variant = .recheck) {s0 s : State}
+    (hi : Init s0) (hr : Reach c s0 s) (hq : Quiescent c s) (p : Nat) (pr : Proc)
+    (hp : s.procs[p]? = some pr) :
+    pr.pc = .dead ∨ pr.pc = .done (.ok s0.src) ∨ (pr.pc = .done (.err .compile) ∧ c.mayFail = true) := by
+  have hfin := quiescent_finished hq p pr hp
+  have hsafe := safety c (Or.inr hv) hi hr p pr hp
+  have hnt : NoTimeout s := reach_noTimeout hv (by
+    intro q prq hq' hpc
+    have := hi.allStart q prq hq'
+    rw [this] at hpc; cases hpc) hr
+  obtain ⟨pc, temp⟩ := pr
+  cases pc <;> simp [Pc.finished] at hfin
+  case dead => exact Or.inl rfl
+  case done r =>
+    right
+    cases r with
+    | ok v => left; rw [(hsafe.1 v rfl).1]
+    | err e =>
+      rcases hsafe.2.2 e rfl with h | ⟨h1, h2⟩
+      · subst h; exact absurd rfl (hnt p _ hp)
+      · right; subst h1; exact ⟨rfl, h2⟩
+
+/-- `completion_exists`: from **any** state the callers can be run to quiescence without further
+crashes within `mu c s` steps (nobody ever blocks: `wait_free`) … -/
+theorem completion_exists (c : Cfg) (hv : c.variant = .recheck) : ∀ (m : Nat) (s : State), mu c s ≤ m →
+    ∃ sched t, (∀ x ∈ sched, x.2 ≠ Act.crash) ∧ run c s sched = some t ∧ Quiescent c t ∧ sched.length ≤ mu c s := by
+  intro m
+  induction m with
+  | zero =>
+    intro s hm
+    refine ⟨[], s, by simp, rfl, ?_, by simp⟩
+    intro p a _
+    cases h : step c s p a with
+    | none => rfl
+    | some s' => have := step_mu hv h; omega
+  | succ m ih =>
+    intro s hm
+    by_cases hq : Quiescent c s
+    · exact ⟨[], s, by simp, rfl, hq, by simp⟩
+    · have : ∃ p a, a ≠ Act.crash ∧ ∃ s', step c s p a = some s' := by
+        apply Classical.byContradiction
+        intro hno
+        apply hq
+        intro p a hne
+        cases h : step c s p a with
+        | none => rfl
+        | some s' => exact absurd ⟨p, a, hne, s', h⟩ hno
+      obtain ⟨p, a, hne, s', hs'⟩ := this
+      have hlt := step_mu hv hs'
+      obtain ⟨sched, t, hnc, hrun, hqt, hlen⟩ := ih s' (by omega)
+      refine ⟨(p, a) :: sched, t, ?_, ?_, hqt, ?_⟩
+      · intro x hx
+        rcases List.mem_cons.mp hx with h | h
+        · subst h; exact hne
+        · exact hnc x h
+      · simp [run, hs', hrun]
+      · simp only [List.length_cons]; omega
+
+/-- An infinite execution driven by a scheduler: at tick `i` caller `(σ i).1` is asked to do
+`(σ i).2`; if that action is not enabled (or is a crash) nothing happens. -/
+def exec (c : Cfg) (s0 : State) (σ : Nat → Nat × Act) : Nat → State
+  | 0 => s0
+  | i + 1 =>
+    let s := exec c s0 σ i
+    if (σ i).2 = Act.crash then s else (step c s (σ i).1 (σ i).2).getD s
+
+/-- The fairness hypothesis, as a predicate on schedules: as long as somebody can still move, some
+later tick of the schedule does move somebody (the scheduler does not starve *everybody* forever).
+No assumption is made about *which* caller moves, and none about the lock holder's speed relative
+to the waiters' polls: in `recheck` a waiter that gives up waiting removes the lock and proceeds by itself. -/
+def Progress (c : Cfg) (s0 : State) (σ : Nat → Nat × Act) : Prop :=
+  ∀ i, ¬ Quiescent c (exec c s0 σ i) → ∃ j, i ≤ j ∧ exec c s0 σ (j + 1) ≠ exec c s0 σ j
+
+theorem exec_mu_step (c : Cfg) (hv : c.variant = .recheck) (s0 : State) (σ : Nat → Nat × Act) (i : Nat) :
+    (exec c s0 σ (i + 1) = exec c s0 σ i) ∨ mu c (exec c s0 σ (i + 1)) < mu c (exec c s0 σ i) := by
+  simp only [exec]
+  split
+  · exact Or.inl rfl
+  · cases h : step c (exec c s0 σ i) (σ i).1 (σ i).2 with
+    | none => exact Or.inl rfl
+    | some s' => exact Or.inr (by simpa using step_mu hv h)
+
+theorem exec_mu_mono (c : Cfg) (hv : c.variant = .recheck) (s0 : State) (σ : Nat → Nat × Act) (i : Nat) :
+    ∀ d, mu c (exec c s0 σ (i + d)) ≤ mu c (exec c s0 σ i) := by
+  intro d
+  induction d with
+  | zero => exact Nat.le_refl _
+  | succ d ih =>
+    rcases exec_mu_step c hv s0 σ (i + d) with h | h
+    · rw [← Nat.add_assoc, h]; exact ih
+    · rw [← Nat.add_assoc]; omega
+
+/-- `liveness_recheck`: every crash-free execution that satisfies `Progress` reaches a quiescent
+state within finitely many ticks; by `recovery_recheck` every live caller then holds `ok src`.
+(Proof: the ranking function `mu` never increases along the execution and strictly decreases at
+every tick that moves somebody.) -/
+theorem liveness_recheck (c : Cfg) (hv : c.variant = .recheck) (s0 : State) (σ : Nat → Nat × Act)
+    (hfair : Progress c s0 σ) : ∃ T, Quiescent c (exec c s0 σ T) := by
+  suffices h : ∀ m i, mu c (exec c s0 σ i) ≤ m → ∃ T, Quiescent c (exec c s0 σ T) from h _ 0 (Nat.le_refl _)
+  intro m
+  induction m with
+  | zero =>
+    intro i hm
+    refine ⟨i, ?_⟩
+    intro p a _
+    cases h : step c (exec c s0 σ i) p a with
+    | none => rfl
+    | some s' => have := step_mu hv h; omega
+  | succ m ih =>
+    intro i hm
+    by_cases hq : Quiescent c (exec c s0 σ i)
+    · exact ⟨i, hq⟩
+    · obtain ⟨j, hij, hne⟩ := hfair i hq
+      have hmono := exec_mu_mono c hv s0 σ i (j - i)
+      have hji : i + (j - i) = j := by omega
+      rw [hji] at hmono
+      rcases exec_mu_step c hv s0 σ j with h | h
+      · exact absurd h hne
+      · exact ih (j + 1) (by omega)
+
+/-- Non-vacuity of `Progress`/`liveness_recheck`/`recovery_recheck`: a concrete run of two callers
+from "stale library + leftover lock" in which caller 0 dies holding the lock; caller 1 still ends
+with the current version. -/
+example : (run { K := 1, mayFail := false } (mkInit 2 (some ⟨1, true⟩) true 2)
+    [(0, .check), (0, .tryLock), (0, .poll), (0, .poll), (0, .check), (0, .tryLock), (0, .compileBegin), (0, .crash),
+     (1, .check), (1, .tryLock), (1, .poll), (1, .poll), (1, .check), (1, .tryLock), (1, .compileBegin),
+     (1, .compileFinish), (1, .rename), (1, .unlock), (1, .load)]).map (fun s => (s.procs.map (·.pc), s.lock))
+    = some ([.dead, .done (.ok 2)], none) := by decide
 
 end TsVerif.C19
